@@ -13,12 +13,7 @@ package snowflake_server
 //        (r<i>:x<hex>:<now>, w:x<cid>:x<hex>:<now>, s<i>:<now>: ignored here, real time flows); v<now> = the sweeper ran
 //        without consequence (no-op here); V<now> = an idle gap of more than timeout + sweep period (= 1.5 timeouts):
 //        the driver really waits that long, after which every record has expired whatever the scheduler did.
-//   carrierlayer move <ops>   the REAL Transport.Listen / Accept path (http.Server, httpHandler, QueuePacketConn with
-//        clientMapTimeout, kcp.ServeConn, acceptSessions, acceptStreams, smux) fed by WebSocket carriers that carry
-//        hand-made KCP segments with smux frames inside (made by lib/checks/c05.py), so the schedule is deterministic:
-//        ops n | r<i>:x<hex> | c<i> | g<ms> (real pause); expectations @a<n> (n connections accepted so far),
-//        @t<n> (n stream bytes read so far over all accepted connections)
-//   -> accepted=<n> st=<x<bytes read from accepted connection 0>,...|->
+//   (moving sessions through the real Listen/Accept path: the black-box driver harness/overlay/zz_verif/c05bb)
 
 import (
 	"bufio"
@@ -37,7 +32,6 @@ import (
 
 	"git.torproject.org/pluggable-transports/snowflake.git/v2/common/turbotunnel"
 	"github.com/gorilla/websocket"
-	"github.com/xtaci/kcp-go/v5"
 )
 
 type c05carrier struct {
@@ -249,172 +243,6 @@ func c05Run(ops string, timeout time.Duration) string {
 }
 
 
-// c05Move: moving sessions through the real Listen/Accept path.
-func c05Move(ops string) string {
-	// the wiring of Transport.Listen (server/lib/snowflake.go), with the HTTP side on an httptest server so that
-	// concurrent scenarios cannot collide on a TCP port: QueuePacketConn with the server's retention constant,
-	// httpHandler, kcp.ServeConn on the same QueuePacketConn, acceptSessions feeding the listener's queue
-	addr := &net.TCPAddr{IP: net.IPv4(127, 0, 0, 1), Port: 1}
-	handler := httpHandler{pconn: turbotunnel.NewQueuePacketConn(addr, clientMapTimeout)}
-	srv := httptest.NewServer(&handler)
-	kln, err := kcp.ServeConn(nil, 0, 0, handler.pconn)
-	if err != nil {
-		srv.Close()
-		return "!serveconn:" + err.Error()
-	}
-	ln := &SnowflakeListener{addr: addr, queue: make(chan net.Conn, 65534), closed: make(chan struct{}), server: srv.Config, ln: kln}
-	go func() {
-		defer kln.Close()
-		ln.acceptSessions(kln)
-	}()
-	defer func() {
-		ln.Close()
-		handler.pconn.Close()
-		srv.Close()
-	}()
-	base := "ws" + strings.TrimPrefix(srv.URL, "http") + "/"
-	var mu sync.Mutex
-	var streams [][]byte
-	var conns []net.Conn
-	go func() {
-		for {
-			c, err := ln.Accept()
-			if err != nil {
-				return
-			}
-			mu.Lock()
-			j := len(streams)
-			streams = append(streams, nil)
-			conns = append(conns, c)
-			mu.Unlock()
-			go func() {
-				buf := make([]byte, 1<<15)
-				for {
-					n, err := c.Read(buf)
-					mu.Lock()
-					streams[j] = append(streams[j], buf[:n]...)
-					mu.Unlock()
-					if err != nil {
-						return
-					}
-				}
-			}()
-		}
-	}()
-	defer func() {
-		mu.Lock()
-		for _, c := range conns {
-			c.Close()
-		}
-		mu.Unlock()
-	}()
-	var carriers []*websocket.Conn
-	snapshot := func() string {
-		mu.Lock()
-		defer mu.Unlock()
-		s := strconv.Itoa(len(streams))
-		for _, st := range streams {
-			s += "/" + strconv.Itoa(len(st))
-		}
-		return s
-	}
-	settleFor := func(rounds int, max time.Duration) {
-		deadline := time.Now().Add(max)
-		last, same := snapshot(), 0
-		for same < rounds && time.Now().Before(deadline) {
-			time.Sleep(3 * time.Millisecond)
-			cur := snapshot()
-			if cur == last {
-				same++
-			} else {
-				last, same = cur, 0
-			}
-		}
-	}
-	waitFor := func(exps []string) {
-		deadline := time.Now().Add(10 * time.Second)
-		for time.Now().Before(deadline) {
-			ok := true
-			mu.Lock()
-			for _, e := range exps {
-				n, _ := strconv.Atoi(e[1:])
-				switch e[0] {
-				case 'a':
-					if len(streams) < n {
-						ok = false
-					}
-				case 't':
-					tot := 0
-					for _, st := range streams {
-						tot += len(st)
-					}
-					if tot < n {
-						ok = false
-					}
-				}
-			}
-			mu.Unlock()
-			if ok {
-				return
-			}
-			time.Sleep(2 * time.Millisecond)
-		}
-	}
-	for _, opx := range strings.Split(ops, ",") {
-		parts := strings.Split(opx, "@")
-		op := parts[0]
-		switch {
-		case op == "n":
-			ws, _, err := websocket.DefaultDialer.Dial(base+"?client_ip=192.0.2.7", nil)
-			if err != nil {
-				return "!dial:" + err.Error()
-			}
-			carriers = append(carriers, ws)
-			go func() { // drain downstream (KCP acknowledgements, smux window updates)
-				for {
-					if _, _, err := ws.ReadMessage(); err != nil {
-						return
-					}
-				}
-			}()
-		case op[0] == 'r':
-			f := strings.Split(op[1:], ":")
-			i, _ := strconv.Atoi(f[0])
-			carriers[i].WriteMessage(websocket.BinaryMessage, c05hex(f[1]))
-		case op[0] == 'c':
-			i, _ := strconv.Atoi(op[1:])
-			carriers[i].Close()
-		case op[0] == 'g':
-			ms, _ := strconv.Atoi(op[1:])
-			time.Sleep(time.Duration(ms) * time.Millisecond)
-		case op == "z":
-		default:
-			continue
-		}
-		if len(parts) > 1 {
-			waitFor(parts[1:])
-		}
-		settleFor(2, 300*time.Millisecond)
-	}
-	settleFor(40, 3*time.Second)
-	mu.Lock()
-	out := fmt.Sprintf("accepted=%d st=", len(streams))
-	if len(streams) == 0 {
-		out += "-"
-	}
-	for j, st := range streams {
-		if j > 0 {
-			out += ","
-		}
-		out += "x" + hex.EncodeToString(st)
-	}
-	mu.Unlock()
-	for _, ws := range carriers {
-		ws.Close()
-	}
-	return out
-}
-
 type dummyAddrC05 struct{}
 
 func (dummyAddrC05) Network() string { return "dummy" }
@@ -463,8 +291,6 @@ func TestVerifC05Driver(t *testing.T) {
 					tmo = clientMapTimeout // the server's own retention
 				}
 				res[idx] = c05Run(a[3], tmo)
-			case len(a) == 3 && a[1] == "move":
-				res[idx] = c05Move(a[2])
 			default:
 				res[idx] = "!badcase"
 			}
